@@ -20,3 +20,113 @@ def run(run):
         run.identity(f"row/{fam}", nodes[i], spec,
                      replay=replay_identity(["rows"], fam, spec, names, run.seed))
     run.bounds.append("row identities: all selector values, challenges and wire values (unbounded)")
+    prover_witness_runs(run)
+
+
+# ---------------------------------------------------------------------------
+# Prover exactness on a small circuit with SYMBOLIC witness values
+# ---------------------------------------------------------------------------
+import random
+
+import xengine as xe
+from smt import R
+
+
+def _scripted(args, env, seed):
+    from checks.verifier_common import scripted_at
+    return scripted_at(args, env, seed)
+
+
+def prover_witness_runs(run):
+    from checks.c01 import degree_bound
+    for scenario, what in ((0, "satisfying family"), (1, "one row violated"), (2, "one copy constraint broken")):
+        args = ["prove_w", str(scenario)]
+        sb = fw.run_driver(fw.SYM_BIN, args, run.seed, extra_env={"VERIF_FLIP_DEPTH": "0" if scenario == 0 else "14",
+                                                                    "VERIF_MAX_PATHS": "300"})
+        run.add_functions(sb["meta"]["functions"])
+        ctx = smt.Ctx()
+        nodes = ctx.from_nodes(sb["nodes"])
+        P = sb["outputs"]["prove"]
+        tag = f"prover/{what.replace(' ', '-')}"
+        names = ["wa", "wb", "we", "srs0", "srs1", "srs2"]
+        for k, p in enumerate(P["paths"]):
+            conds = [(nodes[c["a"]], nodes[c["b"]], c["eq"], c["forced"]) for c in p["path"]]
+            generic = not any(eq and not forced for _, _, eq, forced in conds)
+            if p["panic"] is not None:
+                # a panicking path is a violation iff it is feasible: the solver confirms a
+                # witness point (hint: pseudo-random values; on the generic path every
+                # comparison was decided `different`), which is then replayed concretely
+                rnd = random.Random(run.seed + 77 + k)
+                hint = None
+                for _ in range(4):
+                    env = {n: rnd.randrange(2, R) for n in names}
+                    ok = True
+                    for a, b, eq, forced in conds:
+                        if forced:
+                            continue
+                        va = smt.evaluate([a, b], env)
+                        if va[a.id] is None or va[b.id] is None or (va[a.id] == va[b.id]) != eq:
+                            ok = False
+                            break
+                    if ok:
+                        hint = env
+                        break
+                roots, asserts = [], []
+                for a, b, eq, forced in conds:
+                    if forced or smt.has_inv([a, b]):
+                        continue
+                    d = a - b
+                    roots.append(d)
+                    atom = f"(= (mod {smt.ref(d)} {R}) 0)"
+                    asserts.append(atom if eq else f"(not {atom})")
+                lines = smt.smt_defs(roots)
+                if hint:
+                    used = set(smt.variables(roots))
+                    asserts += [f"(= {smt.vname(n)} {v})" for n, v in hint.items() if n in used]
+
+                def rp(model, args=args, hint=hint):
+                    env = {n: "%064x" % v for n, v in (hint or {}).items()}
+                    rb = _scripted(args, env, run.seed)
+                    out = rb["outputs"]["prove"]["paths"][0]
+                    return out["panic"] is not None, {"env": env, "driver": args, "real": out}
+                o = run.obligation(f"{tag}/p{k}/panic-infeasible", lines, asserts, "unsat", "panic-freedom",
+                                   replay=rp, meta={"panic": p["panic"]})
+                continue
+            res = p["result"]
+            if scenario == 0:
+                if not res["proved"] or res.get("verified") != "Ok(())":
+                    run.violations.append((f"{tag}/p{k}", _wv(run, tag, f"satisfying instance: {res}")))
+                    continue
+                # the verifier accepted the symbolic proof: its pairing comparison was decided `equal`
+                # by the simulation points; the identity itself (rational in the witness values through
+                # the permutation accumulator) is beyond the solver at this size and is decided for the
+                # blinder / SRS family in C01 -- here only the run-level outcome is part of the claim
+                run.extra["satisfying_family_symbolic_proof_accepted"] = True
+            else:
+                if generic and (res["proved"] or "CircuitUnsatisfied" not in str(res.get("error"))):
+                    run.violations.append((f"{tag}/p{k}/generic-outcome",
+                                           _wv(run, tag, f"violating instance, generic values: {res}")))
+        run.extra[f"{tag}/paths"] = len(P["paths"])
+    # satisfied concrete circuits of both minimal sizes (n = 4: no user gate; n = 8) with symbolic
+    # blinders: the prover must return a proof that the verifier accepts (outcome of the symbolic run)
+    for kind in (0, 1):
+        sb = fw.run_driver(fw.SYM_BIN, ["prove", str(kind)], run.seed)
+        o = sb["outputs"]
+        if "error" in o or o.get("verified") != "Ok(())":
+            run.violations.append((f"prover/satisfied-circuit{kind}",
+                                   _wv(run, f"prover/satisfied{kind}", f"satisfying assignment: error={o.get('error')} verified={o.get('verified')}")))
+        run.extra[f"prover/satisfied-circuit{kind}/constraints"] = o.get("n")
+    run.bounds.append("prover on a 8-row circuit with symbolic witness values (a, b, e), symbolic SRS secret, concrete "
+                      "blinders and scripted challenges: satisfying family (all a, b), one violated row, one broken "
+                      "copy constraint; the first 14 symbolic comparisons flipped exhaustively")
+    run.outside.append("'prove returns Ok <=> every row identity and copy constraint holds' on the non-generic paths "
+                       "(needs: quotient divisibility <=> row identities, classical algebra, not encoded)")
+
+
+def _wv(run, tag, what):
+    import json, os
+    d = os.path.join(fw.OUT, "cex")
+    os.makedirs(d, exist_ok=True)
+    p = os.path.join(d, f"C05_{tag.replace('/', '_')}.json")
+    json.dump({"property": "C05", "what": what}, open(p, "w"), indent=1)
+    return p
